@@ -52,10 +52,19 @@ def consumer(arrival, kind):
 CLOSES = {'t1+': [['D', 1], ['INSTANT'], ['CLOSE', 'ch']], 't2': [['D', 2], ['CLOSE', 'ch']], 't4': [['D', 4], ['CLOSE', 'ch']]}
 
 
-def program(prods, conss, close):
+def program(prods, conss, close, second=False, launch=None):
+    """second: a second, independent channel with its own producer and consumer is busy in the same simulation;
+    launch: scope.do options for the last consumer (delayed start)"""
     kids = [['DO', 'p%d' % (i + 1), s] for i, s in enumerate(prods)] + [['DO', 'c%d' % (i + 1), s] for i, s in enumerate(conss)]
-    return {'objs': {'ch': 'Channel'}, '_nops': 40,
-            'roots': [['root', [['SCOPE', 's', kids + CLOSES[close]], ['TRY', [['PUT', 'ch', 'late']]], ['TRY', [['GET', 'ch']]],
+    if launch:
+        kids[-1] = kids[-1] + [launch]
+    tail = CLOSES[close]
+    if second:
+        kids.append(['DO', 'pz', [['TRY', [['PUT', 'ch2', 'z0']]], ['D', 1], ['TRY', [['PUT', 'ch2', 'z1']]], ['TRY', [['PUT', 'ch2', 'z2']]]]])
+        kids.append(['DO', 'cz', [['ITER', 'ch2', None, []]]])
+        tail = tail + [['TRY', [['CLOSE', 'ch2']]]]
+    return {'objs': {'ch': 'Channel', 'ch2': 'Channel'}, '_nops': 40,
+            'roots': [['root', [['SCOPE', 's', kids + tail], ['TRY', [['PUT', 'ch', 'late']]], ['TRY', [['GET', 'ch']]],
                                 ['PROBE', 'now']]]]}
 
 
@@ -85,6 +94,18 @@ def cases(tier):
         for p in (P1 + P2) if thorough else (P1[:2] + P2[:2]):
             for cs in itertools.product(tri, tri, tri):
                 out.append(program(p, list(cs), close))
+    # a second channel in the same simulation: nothing crosses over
+    for close in ('t2', 't4'):
+        for p in P1[:3] + P2[:2]:
+            for c1, c2 in itertools.product(Cs[:5], Cs[:5]):
+                out.append(program(p, [c1, c2], close, second=True))
+    # a consumer with a delayed start (cancelled / interrupted while it still waits for its start date, too)
+    for close in ('t2', 't4'):
+        for p in P1[:3] + P2[:2]:
+            for c1 in Cs[:4]:
+                for c2 in (consumer(0, 'iter'), consumer(0, 'get'), consumer(0, 'slow')):
+                    for launch in ({'after': 1}, {'at': 2}, {'after': 0}):
+                        out.append(program(p, [c1, c2], close, launch=launch))
     return out
 
 
@@ -94,10 +115,21 @@ def close_at(program, t, j):
     while body and body[-1][0] != 'DO':
         body.pop()
     body.append(['DO', 'closer', [['EQ', t], ['SPIN', j], ['CLOSE', 'ch']]])
+    if any(op[0] == 'DO' and op[1] == 'cz' for op in body):
+        body.append(['DO', 'closer2', [['D', 4], ['TRY', [['CLOSE', 'ch2']]]]])     # the second channel keeps its own close
     return p
 
 
 def channel_model(ctx, program, hit=()):
+    msgs, multi = [], False
+    for ch in ('ch', 'ch2'):
+        m, mu = one_channel_model(ctx, program, hit, ch)
+        msgs += m
+        multi = multi or mu
+    return msgs, multi
+
+
+def one_channel_model(ctx, program, hit, ch):
     msgs = []
     log = ctx.log
     puts = []         # (start idx, time, message)  accepted puts in order
@@ -105,6 +137,11 @@ def channel_model(ctx, program, hit=()):
     ops = {}
     for idx, (kind, act, pc, now, data) in enumerate(log):
         if kind == 'start':
+            if data in ('PUT', 'GET', 'ITER', 'CLOSE'):
+                o_ = ST_op(program, act, pc)
+                # (operations inside the body of an iteration are not resolved by ST_op: those are all on 'ch')
+                if (o_[1] if o_ is not None else 'ch') != ch:
+                    continue        # an operation on the other channel
             ops[(act, pc)] = {'op': data, 'start': idx, 'act': act, 't': now}
             if data == 'CLOSE' and close_idx is None:
                 close_idx = idx
@@ -221,6 +258,12 @@ def explore_case(program, tier):
     positions = F.attack_positions(ctx0, 0)
     for t, j in positions:
         one(close_at(program, t, j), [], 'closepos')
+        if len(victims) > 1 and j <= 1:
+            p = F.abort_all_attack(program, t, j)
+            # (the close that the scope body would have done is made up for, so that the root's tail meets a closed channel)
+            p['roots'][0][1][0] = ['FINALLY', [p['roots'][0][1][0]], [['TRY', [['CLOSE', 'ch']]]]]
+            p['_hit'] = list(victims)
+            one(p, [], 'closeall')
         for v in victims:
             p = F.until_attack(program, v, t, j, True)
             p['_hit'] = [v]
